@@ -1,7 +1,7 @@
 (* C02 - Mapper errors are precise and a failed call changes no mapping.
    About the abstract tree model (Paging/Tree.v), which the correspondence check ties to the
    three mapper implementations on whole call histories. *)
-From X86 Require Import Paging.Tree Paging.TreeProofs.
+From X86 Require Import Paging.Mapped Paging.Tree Paging.TreeProofs Paging.Refine Paging.RefineAtomic Paging.Run.
 Open Scope Z_scope.
 
 (* which outcome map_to reports is decided by the state it is called in *)
@@ -77,3 +77,15 @@ Theorem C02_failed_calls_do_not_show_in_any_history : forall rec r s op s' o d,
   forall path, lookup (t_root s') path = dict_step d op o path.
 Proof. exact apply_op_dictated. Qed.
 Print Assumptions C02_failed_calls_do_not_show_in_any_history.
+
+(* at the level of raw table memory (MappedPageTable/OffsetPageTable memory model): a map_to
+   that reports an error -- whichever, at whichever allocation point -- leaves the physical
+   address, page size and leaf word the hardware walk finds for EVERY virtual address unchanged *)
+Theorem C02_failed_map_changes_no_translation_in_memory : forall s ch k page frame flags pf s' o c rest,
+  0 <= k <= 2 ->
+  rep 4 s ch (root s) -> tframe (root s) -> sep s (root s) ch -> pflags_ok pf ->
+  leaf_ok (Z.to_nat (k + 1)) (leaf_word k frame flags) ->
+  map_to s k page frame flags pf = Ok (s', o) -> o = c :: rest -> c < 0 ->
+  forall va, walk3 (enc_walk (hw_walk s' va)) = walk3 (enc_walk (hw_walk s va)).
+Proof. exact failed_map_changes_no_translation. Qed.
+Print Assumptions C02_failed_map_changes_no_translation_in_memory.
